@@ -42,6 +42,8 @@ eb4291f C19 C19-streamed-oversize-answered-500
 ce92150 C05 C05-stale-handle-closes-successor
 79f0862 C12 C12-batch-reply-id-of-other-json-type
 d63250d C09 C09-send-hangs-while-read-side-fails
+eca7f36 C18 C18-orphan-notification-handler
+17b7272 C10 C10-oversized-frame-aborts-graceful-wait
 LIST
 rm -rf /verif/replays
 (cd /verif/sim && cargo build --release --offline -q 2>/dev/null)
